@@ -566,7 +566,7 @@ pub static PROP: crate::histcheck::HistProp = crate::histcheck::HistProp {
         "pre-1970 clocks are outside the property's domain (time tests embed an epoch second)",
         "caller threads are real OS threads released one operation at a time; no two calls into the library overlap",
     ],
-    quick_runs: 20_000,
+    quick_runs: 30_000,
     thorough_runs: 1_000_000,
     block: 500,
     cross_process: true,
